@@ -740,7 +740,43 @@ def add_obligations(pack, tier, pid='C06'):
                 'which the mask holds; np.append(a, b) is a followed by b (assumed numpy contracts)')
     items = [(store_switch_times_head(pid), None, replay_store_switch_times), (store_switch_times_tail(pid, True), None, replay_store_switch_times), (store_switch_times_tail(pid, False), WIT_F28, replay_store_switch_times),
              (fn_tds.tds_init(pid),), (is_time(pid), None, replay_is_time), (model_switch_action(pid), None, replay_event_runs), (system_switch_action(pid), None, replay_event_runs),
-             (toggle_u_switch(pid), None, replay_event_runs), (fault_apply(pid),), (fault_clear(pid),), (alter_field(pid), None, replay_alter_field)]
+             (toggle_u_switch(pid), None, replay_event_runs), (fault_apply(pid), None, replay_fault_flags), (fault_clear(pid), None, replay_fault_flags), (alter_field(pid), None, replay_alter_field)]
     run_contracts(pack, items)
 
 replay_alter_field.real_system = True       # drives the real program on stock inputs: a crash inside repository code is a confirmed failure
+
+
+def replay_fault_flags(obligation=None, model=None, meta=None):
+    """native run of the real Fault.apply_fault / clear_fault on stub devices: every combination of (already in fault, enabled, due) for
+    1-3 fault devices -- a due and enabled device gets its flag set (cleared), every other flag keeps its value (overlapping faults)"""
+    import contextlib
+    import io
+    import itertools
+    import numpy as np
+    from andes.models.timer import Fault
+    from contracts.packutil import Stub
+    n_cases = 0
+    for n in (1, 2, 3):
+        for uf0 in itertools.product((0.0, 1.0), repeat=n):
+            for u in itertools.product((0.0, 1.0), repeat=n):
+                for due in itertools.product((False, True), repeat=n):
+                    for which in ('apply_fault', 'clear_fault'):
+                        y = np.arange(6, dtype=float)
+                        stub = Stub(Fault, n=n, u=Stub(v=np.array(u)), uf=Stub(v=np.array(uf0)), idx=Stub(v=list(range(1, n + 1))),
+                                    bus=Stub(v=list(range(11, n + 11))), tf=Stub(v=np.full(n, 1.0)), tc=Stub(v=np.full(n, 1.1)),
+                                    config=Stub(restore=False, mode=1, scale=1.0), _vstore=np.array([]),
+                                    system=Stub(dae=Stub(y=y, t=1.0), Bus=Stub(n=2)))
+                        n_cases += 1
+                        with contextlib.redirect_stdout(io.StringIO()), contextlib.redirect_stderr(io.StringIO()):
+                            ret = getattr(Fault, which)(stub, np.array(due))
+                        new = 1.0 if which == 'apply_fault' else 0.0
+                        want = [new if (d and e == 1) else f for d, e, f in zip(due, u, uf0)]
+                        got = np.asarray(stub.uf.v, dtype=float).tolist()
+                        any_due = any(d and e == 1 for d, e in zip(due, u))
+                        if got != want or bool(ret) != any_due:
+                            return {'confirmed': True,
+                                    'inputs': {'call': 'Fault.%s' % which, 'in fault before (uf)': list(uf0), 'enabled (u)': list(u), 'due now': list(due)},
+                                    'observed': 'uf after the call %r (returned %r); the due and enabled devices change, all others keep their flag: %r (action %r)'
+                                                % (got, ret, want, any_due),
+                                    'native_cmd': 'Fault.%s(stub, is_time) on a stub with the listed arrays' % which}
+    return {'confirmed': False, 'tried': n_cases}
